@@ -26,7 +26,20 @@ func must2(s sdf.SDF2, err error) sdf.SDF2 {
 	return s
 }
 
+// The Bezier sampler draws from the process-global sdfRand, so the polygon of
+// the n-th curve built in a process depends on how many were built before.
+// The property speaks of "a given model": the profile is built once, first
+// thing in the process, and shared.
+var sharedBezier sdf.SDF2
+
 func bezierProfile() sdf.SDF2 {
+	if sharedBezier == nil {
+		sharedBezier = buildBezierProfile()
+	}
+	return sharedBezier
+}
+
+func buildBezierProfile() sdf.SDF2 {
 	b := sdf.NewBezier()
 	b.Add(0, 0)
 	b.Add(10, 0).HandleFwd(sdf.DtoR(45), 4)
